@@ -43,15 +43,40 @@ func (gatePayloader) Payload(mtu uint16, payload []byte) [][]byte {
 	return (&codecs.G711Payloader{}).Payload(mtu, payload)
 }
 
+// recPayloader hands every call through to the real payloader and keeps a copy of what it returned:
+// "packets that carry the payloader's fragments unchanged and in order" is judged against the fragments
+// the payloader actually gave the packetizer, whatever room the packetizer chose to offer it (the
+// property bounds the packets by the MTU, it does not say how the budget is computed)
+type recPayloader struct {
+	inner rtp.Payloader
+	last  [][]byte
+	calls int
+}
+
+func (r *recPayloader) Payload(mtu uint16, payload []byte) [][]byte {
+	out := r.inner.Payload(mtu, payload)
+	r.calls++
+	r.last = nil
+	for _, f := range out {
+		r.last = append(r.last, append([]byte{}, f...))
+	}
+	return out
+}
+
 func runPacketizer(toks []Tok) Outcome {
 	var o Outcome
 	mtu, pt, ssrc := uint16(tokInt(toks[0])), uint8(tokInt(toks[1])), uint32(tokInt(toks[2]))
 	ts0, seq0, code := uint32(tokInt(toks[3])), uint16(tokInt(toks[4])), int(tokInt(toks[5]))
 	var now int64
-	pz := rtp.VerifNewPacketizer(mtu, pt, ssrc, newPayloader(code), rtp.NewFixedSequencer(seq0), 90000, ts0,
+	rec := &recPayloader{inner: newPayloader(code)}
+	pz := rtp.VerifNewPacketizer(mtu, pt, ssrc, rec, rtp.NewFixedSequencer(seq0), 90000, ts0,
 		func() time.Time { return time.Unix(0, now) })
 	res := VList{}
 	ts, seq, abs := ts0, seq0, 0
+	// samples of calls with an EMPTY payload since the timestamp was last seen: the property speaks of
+	// non-empty payloads only, so whether such a call advances the timestamp is the implementation's choice
+	// (one choice, kept: the first packet seen afterwards settles it)
+	var slack uint32
 	fail := func(f string, a ...interface{}) {
 		if o.Fail == "" {
 			o.Fail = fmt.Sprintf(f, a...)
@@ -65,24 +90,22 @@ func runPacketizer(toks []Tok) Outcome {
 		case 1:
 			payload, samples := tokBytes(l[1]), uint32(tokInt(l[2]))
 			now = tokInt(l[3])
+			rec.last, rec.calls = nil, 0
 			if pn, what := catch(func() { pk = pz.Packetize(payload, samples) }); pn {
 				res = append(res, PanicV())
 				fail("op %d: Packetize panicked: %s", oi, what)
 				continue
 			}
 			if len(payload) > 0 {
-				// the room that remains for the payloader: the fixed header and, with abs-send-time on, the
-				// RFC 8285 block in the form the id requires (one-byte: 4+1+3, two-byte: 4+2+3 padded to 12)
-				budget := int(mtu) - 12
-				if abs != 0 {
-					budget -= 8
-				}
-				if abs > 14 {
-					budget -= 4
-				}
-				want := newPayloader(code).Payload(uint16(budget), payload)
+				want := rec.last
 				if len(pk) != len(want) {
 					fail("op %d: %d packets for %d fragments", oi, len(pk), len(want))
+				}
+				if len(pk) > 0 && slack != 0 {
+					if pk[0].Timestamp == ts+slack {
+						ts += slack
+					}
+					slack = 0
 				}
 				for i, p := range pk {
 					if i < len(want) && !bytes.Equal(p.Payload, want[i]) {
@@ -112,8 +135,11 @@ func runPacketizer(toks []Tok) Outcome {
 				if len(pk) >= 2 {
 					o.Nontrivial = true
 				}
-			} else if pk != nil {
-				fail("op %d: packets for an empty payload", oi)
+			} else {
+				if len(pk) != 0 {
+					fail("op %d: packets for an empty payload", oi)
+				}
+				slack += samples
 			}
 		case 2:
 			n := uint32(tokInt(l[1]))
@@ -126,8 +152,10 @@ func runPacketizer(toks []Tok) Outcome {
 				fail("op %d: GeneratePadding(%d) returned %d packets", oi, n, len(pk))
 			}
 			for i, p := range pk {
-				if p.SequenceNumber != seq || p.Timestamp != ts || !p.Padding || p.Marker || p.SSRC != ssrc {
-					fail("op %d: padding packet %d header wrong", oi, i)
+				// "n packets, continuing the same sequence, ... valid padding-only RTP packets" (timestamp and
+				// marker of a padding packet are not the property's business)
+				if p.SequenceNumber != seq || !p.Padding || p.SSRC != ssrc {
+					fail("op %d: padding packet %d header wrong (seq %d want %d)", oi, i, p.SequenceNumber, seq)
 				}
 				seq++
 				b, err := p.Marshal()
